@@ -213,6 +213,9 @@ def fresh_like(I, st0, v, name, cands, path=()):
         return VNat(a)
     if isinstance(v, VSeq):
         lf = leaf(("loopvar",) + nm)
+        import lax_model
+        if lax_model.is_flags(v.t):
+            lax_model.FLAG_LEAVES.add(lf)
         cands.append(("seq_same", lf, v.t))
         cands.append(("seq_len", lf, t_len(v.t)))
         for b in ubs(st0, v.t):
